@@ -920,6 +920,8 @@ def _monitor_c07(case, out):
                 continue
             key = unhx(d.get("key", "-")) if "key" in d else None
             src = byname.get(key) if key is not None else None
+            if op in ("toolmulti", "toolmultisub"):
+                src = True
             if op in ("fetch", "fetchinfo", "fetchsub", "poskey", "toolsub", "toolfetch") and src is None:
                 if st in ("ok", "eod") or line.startswith("ok"):
                     return Failure("monitor", "%s of absent key %r returned data: %s" % (op, key, line[:80]))
@@ -948,6 +950,32 @@ def _monitor_c07(case, out):
                 got = unhx(line.split("hex=")[1].split()[0])
                 if got != data[src["roff"]:src["eoff"] + 1]:
                     return Failure("monitor", "esl-sfetch %r wrote %d bytes that are not the record's bytes %d..%d of the file" % (key, len(got), src["roff"], src["eoff"]))
+            elif op == "toolmulti":
+                if not line.startswith("ok hex="):
+                    return Failure("monitor", "esl-sfetch -f failed: %s" % line[:80])
+                got = unhx(line.split("hex=")[1].split()[0])
+                ks = [l.split()[0] for l in unhx(d.get("text", "-")).split(b"\n") if l.strip() and not l.strip().startswith(b"#")]
+                want = b"".join(data[byname[k]["roff"]:byname[k]["eoff"] + 1] for k in ks if k in byname)
+                if got != want:
+                    return Failure("monitor", "esl-sfetch -f wrote %d bytes, the %d named records occupy %d bytes of the file" % (len(got), len(ks), len(want)))
+            elif op == "toolmultisub":
+                if not line.startswith("ok hex="):
+                    return Failure("monitor", "esl-sfetch -Cf failed: %s" % line[:80])
+                got = unhx(line.split("hex=")[1].split()[0])
+                want = b""
+                for l in unhx(d.get("text", "-")).split(b"\n"):
+                    t = l.split()
+                    if len(t) != 4 or t[0].startswith(b"#") or t[3] not in byname:
+                        continue
+                    sA, eA, sr = int(t[1]), int(t[2]), byname[t[3]]
+                    lo, hi, rc = (eA, sA, True) if (eA != 0 and sA > eA) else (sA, sr["L"] if eA == 0 else eA, False)
+                    sub = sr["seq"][lo - 1:hi]
+                    if rc:
+                        sub = revcomp_text(sub)
+                    hdr = b">" + t[0] + (b" " + sr["acc"] if sr["acc"] else b"") + (b" " + sr["desc"] if sr["desc"] else b"") + b"\n"
+                    want += hdr + b"".join(sub[k:k + 60] + b"\n" for k in range(0, len(sub), 60))
+                if abc == "text" and got != want:
+                    return Failure("monitor", "esl-sfetch -Cf wrote %r..., expected %r..." % (got[:60], want[:60]))
             elif op == "fetchsub":
                 s, e = int(d["s"]), int(d["e"])
                 L = src["L"]
@@ -1206,3 +1234,24 @@ def monitor_msaseq(case, out):
                 if i < len(rows) and ((name != rows[i][0].encode() and L > 0) or L != len(rows[i][1]) or (abc == "text" and seq != rows[i][1].encode())):
                     return Failure("monitor", "windows over sequence %d of the alignment do not reassemble the dealigned row" % i)
     return None
+
+
+def record_distribution(ctx, cases):
+    """input distribution for the evidence file: ops, format selections, modes, block sizes, file sizes"""
+    from collections import Counter
+    ops, fmts, abcs, bs, sizes = Counter(), Counter(), Counter(), Counter(), []
+    for c in cases:
+        for o in c["ops"]:
+            w = o.split()
+            ops[w[0]] += 1
+            d = dict(x.split("=", 1) for x in w[1:] if "=" in x)
+            if w[0] in ("open", "srcscan"):
+                fmts[d.get("fmt", "?")] += 1; abcs[d.get("abc", "?")] += 1; bs[d.get("B", "?")] += 1
+            elif w[0] == "file":
+                sizes.append((len(d.get("hex", "-")) // 2) if d.get("hex", "-") != "-" else 0)
+    sizes.sort()
+    ctx.stats["input_distribution"] = {
+        "cases": len(cases), "ops": dict(ops.most_common()), "format_selections": dict(fmts.most_common()), "modes": dict(abcs.most_common()),
+        "block_sizes": dict(sorted(bs.items(), key=lambda kv: -kv[1])[:12]),
+        "file_bytes": {"n": len(sizes), "min": sizes[0] if sizes else 0, "median": sizes[len(sizes) // 2] if sizes else 0, "max": sizes[-1] if sizes else 0}}
+    return cases
